@@ -244,7 +244,7 @@ func (p *Program) Func(pkg, name string) *ssa.Function {
 		}
 	}
 	for _, fn := range p.RepoFns {
-		if fn.Parent() == nil && fn.String() == want {
+		if fn.Parent() == nil && canonName(fn) == want {
 			if anon == "" {
 				return fn
 			}
@@ -331,6 +331,13 @@ func (p *Program) Named(pkg, name string) *types.Named {
 		return nil
 	}
 	tm := sp.Type(name)
+	if tm == nil {
+		for nw, old := range TypeAlias {
+			if old == Expand(pkg)+"."+name {
+				tm = sp.Type(nw[strings.LastIndex(nw, ".")+1:])
+			}
+		}
+	}
 	if tm == nil {
 		return nil
 	}
